@@ -96,7 +96,7 @@ theorem commonFams_comm (l r : List Cap) : commonFams l r = commonFams r l :=
 
 /-! ### PeerCodec::negotiate -/
 
-def swapFs (s : FamState) : FamState := { fam := s.fam, rx := s.tx, tx := s.rx }
+def swapFs (s : FamState) : FamState := { fam := s.fam, rx := s.tx, tx := s.rx, enh := s.enh }
 
 theorem famStateOf_swap (l r : List Cap) (f : Family) : famStateOf r l f = swapFs (famStateOf l r f) := by
   simp [famStateOf, swapFs, Bool.and_comm]
@@ -109,7 +109,7 @@ theorem negotiate_mirror (l r : List Cap) :
   congr 1
   · apply List.map_congr_left; intro f _; exact famStateOf_swap l r f
   · exact Bool.and_comm _ _
-  · congr 1; funext f; exact Bool.and_comm _ _
+  · congr 1; exact Bool.and_comm _ _
   · exact Bool.and_comm _ _
 
 theorem negotiate_fams_map (l r : List Cap) : (negotiate l r).fams.map (·.fam) = commonFams l r := by
@@ -224,17 +224,21 @@ theorem as4_iff_both (l r : List Cap) :
     · rintro ⟨n, h⟩; exact ⟨_, h, rfl⟩
   simp [negotiate, key]
 
-theorem enh_iff_both (l r : List Cap) :
-    (negotiate l r).enh = true ↔
-      ∃ f, Cap.mp f ∈ l ∧ Cap.mp f ∈ r ∧ enhAdv f l = true ∧ enhAdv f r = true := by
-  simp only [negotiate, List.any_eq_true, Bool.and_eq_true]
-  constructor
-  · rintro ⟨f, hf, h1, h2⟩
-    rw [mem_commonFams, mem_mpFams, mem_mpFams] at hf
-    exact ⟨f, hf.1, hf.2, h1, h2⟩
-  · rintro ⟨f, h1, h2, h3, h4⟩
-    exact ⟨f, by rw [mem_commonFams, mem_mpFams, mem_mpFams]; exact ⟨h1, h2⟩, h3, h4⟩
+/-- extended next hop is in force for a family in force iff both sides list an RFC 8950 tuple for
+    that family -/
+theorem enh_iff_both (l r : List Cap) (f : Family) (s : FamState) (h : (negotiate l r).state f = some s) :
+    s.enh = (enhAdv f l && enhAdv f r) := by
+  rw [state_eq] at h
+  split at h
+  · cases h; simp [famStateOf]
+  · cases h
 
+/-- the encoder sends IPv4 unicast in MP_REACH / MP_UNREACH iff extended next hop is in force for
+    IPv4 unicast itself -/
+theorem enh_encoding (l r : List Cap) :
+    (negotiate l r).enh = (match (negotiate l r).state IPV4 with | some s => s.enh | none => false) := by
+  rw [state_eq]
+  by_cases h : IPV4 ∈ commonFams l r <;> simp [negotiate, h, famStateOf]
 
 /-! ### sorted association lists -/
 
